@@ -42,7 +42,7 @@ pub fn prop() -> Prop {
          an operation, a stricter variable type in one operation, apply a directive at any location its definition lists, \
          twice when repeatable). Classes ctx:<construct>|<verdict> count these documents.",
     )
-    .random("pairs", check, |t| if t == Tier::Quick { 100_000 } else { 2_000_000 }, |t| if t == Tier::Quick { 700 } else { 1000 })
+    .random("pairs", check, |t| if t == Tier::Quick { 250_000 } else { 3_000_000 }, |t| if t == Tier::Quick { 700 } else { 1000 })
     .text(check_text)
     .case_timeout(120)
     .assumptions(&[
